@@ -1,1 +1,61 @@
-From HL Require Import Tie.Fmt.
+(* C05  Formatting is idempotent, aligned and returns well-formed edits.
+   Same composed model as C04.  Well-formedness and alignment are proved for every syntax tree,
+   text, format table and configuration; idempotence is refuted by the recorded finding and holds
+   on the sample. *)
+From HL Require Import Lib.Bytes Model.Ast Lib.Dec Model.Lexer Model.Parser Model.NumberFormat Model.Formatter
+  Spec.FormatSpec Spec.FormatRun Proofs.FormatterProofs.
+Open Scope Z_scope.
+
+(* first sentence: every range inside the document, start <= end, no two edits overlap *)
+Theorem C05_edits_wf : forall j errs content fm o,
+  post_lines_ok j (split_lf content) = true ->
+  edits_wf (split_lf content) (server_format j errs content (Some fm) o) = true.
+Proof. exact server_format_wf. Qed.
+Print Assumptions C05_edits_wf.
+
+(* third sentence: the amount of every posting without status mark starts in ONE column, the
+   same for the whole document ... *)
+Theorem C05_amount_column : forall txs fm o p a t,
+  fo_align o = true -> 0 < fo_indent o ->
+  In t txs -> In p (tx_postings t) -> po_amount p = Some a -> po_status p = StNone -> amount_text_ok a fm = true ->
+  amount_col (fo_indent o) p (format_posting p (alignment (tx_postings t) fm o (global_col txs o)) fm o)
+  = Some (global_col txs o).
+Proof. exact amount_column. Qed.
+Print Assumptions C05_amount_column.
+
+(* ... which lies at least two blanks to the right of every account, width in characters *)
+Theorem C05_column_clears_every_account : forall txs o p,
+  fo_align o = true -> In p (Formatter.all_postings txs) -> fo_indent o + acct_display_len p + 2 <= global_col txs o.
+Proof. exact global_col_bound. Qed.
+Print Assumptions C05_column_clears_every_account.
+
+Theorem C05_width_in_characters : forall indent p, 0 <= indent ->
+  rcount (plain_head indent p) = indent + acct_display_len p.
+Proof. exact plain_head_width. Qed.
+Print Assumptions C05_width_in_characters.
+
+(* every rewritten posting line starts with exactly the configured indent *)
+Theorem C05_indent : forall p al fm o, 0 <= fo_indent o -> starts_visible p = true ->
+  indent_ok (fo_indent o) (format_posting p al fm o) = true.
+Proof. exact posting_indent. Qed.
+Print Assumptions C05_indent.
+
+Theorem C05_indent_is_positive : forall o, 0 < fo_indent (norm_opts o).
+Proof. exact norm_indent_pos. Qed.
+Print Assumptions C05_indent_is_positive.
+
+(* second sentence *)
+Definition C05_idempotent : Prop := forall t o t1, fmt_text t o = Some t1 -> fmt_text t1 o = Some t1.
+
+Theorem C05_idempotence_refuted_three_decimal_format : ~ C05_idempotent.
+Proof. exact idempotence_refuted. Qed.
+Print Assumptions C05_idempotence_refuted_three_decimal_format.
+
+Theorem C05_sample_holds :
+  match fmt_text w_sample o4 with
+  | Some t1 => fmt_text t1 o4 = Some t1 /\ t1 <> w_sample /\
+               edits_wf (split_lf w_sample) (match parse w_sample with Some (j, errs) => server_format j errs w_sample None o4 | None => [] end) = true
+  | None => False
+  end.
+Proof. exact sample_idempotent. Qed.
+Print Assumptions C05_sample_holds.
